@@ -294,4 +294,40 @@ func TrimRightFunc
   ensures[stop]    len(result) > 0 ==> !unwanted(result[len(result) - 1])
   loop 0 invariant base(slice) == base(param(slice)) && off(slice) == off(param(slice)) && 0 <= len(slice) && len(slice) <= len(param(slice))
   loop 0 invariant forall k :: len(slice) <= k && k < len(param(slice)) ==> unwanted(param(slice)[k])
+
+func Trim
+  property C14
+  ensures[sub]   base(result) == base(slice) && off(result) >= off(slice) && 0 <= len(result) && off(result) + len(result) <= off(slice) + len(slice)
+  ensures[left]  forall k :: 0 <= k && k < off(result) - off(slice) ==> memberOf(unwanted, slice[k])
+  ensures[right] forall k :: off(result) - off(slice) + len(result) <= k && k < len(slice) ==> memberOf(unwanted, slice[k])
+  ensures[stop]  len(result) > 0 ==> !memberOf(unwanted, result[0]) && !memberOf(unwanted, result[len(result) - 1])
+
+func TrimFunc
+  property C14
+  ensures[sub]   base(result) == base(slice) && off(result) >= off(slice) && 0 <= len(result) && off(result) + len(result) <= off(slice) + len(slice)
+  ensures[left]  forall k :: 0 <= k && k < off(result) - off(slice) ==> unwanted(slice[k])
+  ensures[right] forall k :: off(result) - off(slice) + len(result) <= k && k < len(slice) ==> unwanted(slice[k])
+  ensures[stop]  len(result) > 0 ==> !unwanted(result[0]) && !unwanted(result[len(result) - 1])
+
+// first occurrences: s[k] differs from everything before it
+spec firstOcc(s []E, k int) bool = forall j :: 0 <= j && j < k ==> s[j] != s[k]
+spec dlen(s []E, k int) int
+spec dat(s []E, k int, j int) elem(s)
+axiom dlen_zero(s): dlen(s, 0) == 0
+axiom dlen_step(s, k): k >= 0 ==> dlen(s, k+1) == dlen(s, k) + b2i(firstOcc(s, k))
+axiom dat_step(s, k, j): k >= 0 ==> ident(dat(s, k+1, j), ite(j < dlen(s, k), dat(s, k, j), s[k]))
+
+func Distinct
+  property C14
+  ensures[len]   len(result) == dlen(slice, len(slice))
+  ensures[elems] forall j :: 0 <= j && j < len(result) ==> result[j] == dat(slice, len(slice), j)
+  ensures[fresh] fresh(result)
+  loop 0 use dlen_zero(slice)
+  loop 0 use dlen_step(slice, rangeindex + 1)
+  loop 0 use forall j :: {dat(slice, rangeindex + 2, j)} dat_step(slice, rangeindex + 1, j)
+  loop 0 invariant -1 <= rangeindex && rangeindex < len(slice) && fresh(result)
+  loop 0 invariant len(result) == dlen(slice, rangeindex + 1)
+  loop 0 invariant forall j :: 0 <= j && j < len(result) ==> result[j] == dat(slice, rangeindex + 1, j)
+  loop 0 invariant[covers]  forall j :: 0 <= j && j <= rangeindex ==> memberOf(result, slice[j])
+  loop 0 invariant[from]    forall m :: 0 <= m && m < len(result) ==> (exists j :: 0 <= j && j <= rangeindex && slice[j] == result[m])
 @*/
